@@ -83,6 +83,7 @@ func main() {
 	genLLMNR(cl, rng.Fork(), scale)
 	genUPNP(cl, rng.Fork(), scale)
 	genOther(cl, rng.Fork(), scale)
+	genEnumSweep(cl, rng.Fork())
 	if r.Thorough() {
 		genExhaustive(cl, 3) // all strings of length <= 3 over 6 symbols, per decoder
 	} else {
